@@ -1,7 +1,8 @@
 /-
-  C10 on container schemas (slice, object, …): the engine theorems of `Gozod.Proofs.C10` carry over to
-  `runChecksC` exactly when no vacuous check precedes the first overwrite; otherwise the code accepts
-  a value on which an attached check fails (witness).
+  C10 on container schemas (slice, object, …): since /repo 49e6e91 the engine theorems of
+  `Gozod.Proofs.C10` carry over to `runChecksC` for every check list (`c10_container_all`). For the code
+  before that commit (`legacyRunChecksC`) they held only when no vacuous check preceded the first
+  overwrite; otherwise it accepted a value on which an attached check fails (witness, kept).
 -/
 import Gozod.Model.ChecksC
 import Gozod.Proofs.C10
@@ -83,15 +84,135 @@ theorem firstPassC_vacFree (env : Env P O T V) (vac : P → Bool) (cs : List (Ch
               · simp [ha]
               · simp only [ha, if_false, Bool.false_eq_true]; exact ih _ _ _ _ hcs
 
-/-- **C10 on containers (partial).** When no vacuous check precedes the first overwrite, a container
-    schema reports exactly the issues and returns exactly the value of the regular loop — so
-    `c10_issue_order`, `c10_first_failing`, `c10_abort_stops` (on the issue list), `c10_ok_iff_no_fail`
-    and `c10_ok_value` hold for it verbatim. -/
-theorem c10_container_partial (env : Env P O T V) (vac : P → Bool) (cs : List (Check P O)) (v : V)
-    (h : vacFree vac cs = true) :
+/-- Issues only accumulate. -/
+theorem runFrom_issues_ne_nil (env : Env P O T V) (cs : List (Check P O)) :
+    ∀ (i : Nat) (val : V) (iss : List Nat) (log : List (Ev V)), iss ≠ [] →
+      (runFrom env i cs val iss log).issues ≠ [] := by
+  induction cs with
+  | nil => intro i val iss log h; exact h
+  | cons c cs ih =>
+    intro i val iss log h
+    cases c with
+    | overwrite o => simp only [runFrom]; exact ih _ _ _ _ h
+    | pred p abort w =>
+      cases w with
+      | none =>
+        simp only [runFrom]
+        split
+        · exact ih _ _ _ _ h
+        · split
+          · simp
+          · exact ih _ _ _ _ (by simp)
+      | some w =>
+        simp only [runFrom]
+        rw [if_pos h]; exact ih _ _ _ _ h
+
+/-- When the regular loop reports nothing, the extra pass of a container reports nothing either and
+    threads the same value (it evaluates a subset of the same checks on the same values). -/
+theorem firstPassC_of_ok (env : Env P O T V) (vac : P → Bool) (cs : List (Check P O)) :
+    ∀ (i j : Nat) (val : V) (raw : Bool) (log log' : List (Ev V)),
+      (runFrom env j cs val [] log').issues = [] →
+      (firstPassC env vac i cs val raw [] log).issues = [] ∧
+      (firstPassC env vac i cs val raw [] log).val = (runFrom env j cs val [] log').val := by
+  induction cs with
+  | nil => intros; exact ⟨rfl, rfl⟩
+  | cons c cs ih =>
+    intro i j val raw log log' h
+    cases c with
+    | overwrite o =>
+      simp only [runFrom] at h ⊢
+      simp only [firstPassC]
+      exact ih _ _ _ _ _ _ h
+    | pred p abort w =>
+      cases w with
+      | none =>
+        by_cases hp : env.holds p val = true
+        · simp only [runFrom, hp, if_true] at h ⊢
+          simp only [firstPassC, hp, if_true]
+          by_cases hv : (raw && vac p) = true
+          · rw [if_pos hv]; exact ih _ _ _ _ _ _ h
+          · rw [if_neg hv]; exact ih _ _ _ _ _ _ h
+        · exfalso
+          simp only [runFrom, hp, if_false, Bool.false_eq_true] at h
+          by_cases ha : abort = true
+          · simp [ha] at h
+          · simp only [ha, if_false, Bool.false_eq_true] at h
+            exact runFrom_issues_ne_nil env cs _ _ _ _ (by simp) h
+      | some w =>
+        have hnil : ¬ (([] : List Nat) ≠ []) := by simp
+        by_cases hw : env.holds w val = false
+        · simp only [runFrom] at h ⊢
+          rw [if_neg hnil, if_pos hw] at h ⊢
+          simp only [firstPassC]
+          rw [if_neg hnil, if_pos hw]
+          exact ih _ _ _ _ _ _ h
+        · by_cases hp : env.holds p val = true
+          · simp only [runFrom] at h ⊢
+            rw [if_neg hnil, if_neg hw, if_pos hp] at h ⊢
+            simp only [firstPassC]
+            rw [if_neg hnil, if_neg hw]
+            by_cases hv : (raw && vac p) = true
+            · rw [if_pos hv]; exact ih _ _ _ _ _ _ h
+            · rw [if_neg hv, if_pos hp]; exact ih _ _ _ _ _ _ h
+          · exfalso
+            simp only [runFrom] at h
+            rw [if_neg hnil, if_neg hw, if_neg hp] at h
+            by_cases ha : abort = true
+            · simp [ha] at h
+            · simp only [ha, if_false, Bool.false_eq_true] at h
+              exact runFrom_issues_ne_nil env cs _ _ _ _ (by simp) h
+
+/-- **C10 on containers (full since /repo 49e6e91).** A container schema reports exactly the issues
+    and returns exactly the value of the regular loop, whatever the check list — so `c10_issue_order`,
+    `c10_first_failing`, `c10_abort_stops` (issue list), `c10_ok_iff_no_fail` and `c10_ok_value` hold
+    for it verbatim; the pass over the pointer only repeats callback invocations on accepted inputs. -/
+theorem c10_container_all (env : Env P O T V) (vac : P → Bool) (cs : List (Check P O)) (v : V) :
     (runChecksC env vac cs v).issues = (runChecks env cs v).issues ∧
     (runChecksC env vac cs v).val = (runChecks env cs v).val := by
   unfold runChecksC
+  simp only
+  by_cases ho : hasOverwrite cs = true
+  · rw [if_pos ho]
+    by_cases hr : (runChecks env cs v).issues ≠ []
+    · rw [if_pos hr]; exact ⟨rfl, rfl⟩
+    · rw [if_neg hr]
+      have hr' : (runChecks env cs v).issues = [] := Decidable.of_not_not hr
+      have hfp := firstPassC_of_ok env vac cs 0 0 v true [] [] hr'
+      rw [if_pos hfp.1]
+      exact ⟨hr'.symm, hfp.2⟩
+  · rw [if_neg ho]; exact ⟨rfl, rfl⟩
+
+/-- A container accepts exactly when no check fails — every check list (the full statement). -/
+theorem c10_container_ok_iff (env : Env P O T V) (vac : P → Bool) (cs : List (Check P O)) (v : V) :
+    (runChecksC env vac cs v).issues = [] ↔ ∀ k, k < cs.length → failsAt env cs k v = false := by
+  rw [(c10_container_all env vac cs v).1]
+  exact c10_ok_iff_no_fail env cs v
+
+/-- A rejected container input has run the regular loop only: nothing attached after an aborting
+    failure is evaluated. -/
+theorem c10_container_abort (env : Env P O T V) (vac : P → Bool) (cs : List (Check P O)) (v : V) (k : Nat)
+    (hk : k ∈ (runChecksC env vac cs v).issues) (ha : abortAt cs k = true) :
+    ∀ e ∈ (runChecksC env vac cs v).log, e.pos ≤ k := by
+  have hi := (c10_container_all env vac cs v).1
+  have hne : (runChecks env cs v).issues ≠ [] := by
+    rw [← hi]; intro h0; rw [h0] at hk; cases hk
+  have hrun : runChecksC env vac cs v = runChecks env cs v := by
+    unfold runChecksC
+    simp only
+    by_cases ho : hasOverwrite cs = true
+    · rw [if_pos ho, if_pos hne]
+    · rw [if_neg ho]
+  rw [hrun] at hk ⊢
+  exact (c10_abort_stops env cs v k hk ha).1
+
+/-! #### the code up to /repo 49e6e91: extra pass first (`legacyRunChecksC`) -/
+
+/-- Under the side condition the legacy code agreed with the regular loop. -/
+theorem c10_legacy_container_partial (env : Env P O T V) (vac : P → Bool) (cs : List (Check P O)) (v : V)
+    (h : vacFree vac cs = true) :
+    (legacyRunChecksC env vac cs v).issues = (runChecks env cs v).issues ∧
+    (legacyRunChecksC env vac cs v).val = (runChecks env cs v).val := by
+  unfold legacyRunChecksC
   by_cases ho : hasOverwrite cs = true
   · simp only [ho, if_true]
     have hfp : firstPassC env vac 0 cs v true [] [] = runChecks env cs v := firstPassC_vacFree env vac cs 0 v [] [] h
@@ -101,29 +222,25 @@ theorem c10_container_partial (env : Env P O T V) (vac : P → Bool) (cs : List 
     · simp [hi]
   · simp [ho]
 
-/-- Corollary: under the same hypothesis a container accepts exactly when no check fails. -/
-theorem c10_container_ok_iff (env : Env P O T V) (vac : P → Bool) (cs : List (Check P O)) (v : V)
-    (h : vacFree vac cs = true) :
-    (runChecksC env vac cs v).issues = [] ↔ ∀ k, k < cs.length → failsAt env cs k v = false := by
-  rw [(c10_container_partial env vac cs v h).1]
-  exact c10_ok_iff_no_fail env cs v
-
-/-- The full statement: a container accepts exactly when no check fails, whatever the check list. -/
-def c10_container_full (env : Env P O T V) (vac : P → Bool) : Prop :=
+/-- The full statement for the legacy code. -/
+def c10_legacy_container_full (env : Env P O T V) (vac : P → Bool) : Prop :=
   ∀ (cs : List (Check P O)) (v : V),
-    (runChecksC env vac cs v).issues = [] ↔ ∀ k, k < cs.length → failsAt env cs k v = false
+    (legacyRunChecksC env vac cs v).issues = [] ↔ ∀ k, k < cs.length → failsAt env cs k v = false
 
 /-- A two-check instance: predicate `false` (a length check the value violates) then an overwrite. -/
 def witnessEnv : Env Bool Unit Unit Nat := ⟨fun p _ => p, fun _ v => v, fun _ v => v⟩
 
 example : vacFree (fun (_ : Bool) => false) [Check.pred false false none, Check.overwrite ()] = true := by decide
 
-/-- **Witness** (`Slice[int](Int()).Max(0).Overwrite(id).Parse([]int{7})` succeeds): with a vacuous
-    check before an overwrite the container accepts although check 0 fails — the full statement is false. -/
-theorem c10_container_first_pass_witness : ¬ c10_container_full witnessEnv (fun _ => true) := by
+/-- **Witness for the code up to /repo 49e6e91** (`Slice[int](Int()).Max(0).Overwrite(id).Parse([]int{7})`
+    succeeded): with a vacuous check before an overwrite the container accepted although check 0 fails.
+    Repaired in 49e6e91; the same instance is rejected by `runChecksC`. -/
+theorem c10_legacy_container_witness : ¬ c10_legacy_container_full witnessEnv (fun _ => true) := by
   intro h
   have := (h [Check.pred false false none, Check.overwrite ()] 7).mp (by decide)
   exact absurd (this 0 (by decide)) (by decide)
+
+example : (runChecksC witnessEnv (fun _ => true) [Check.pred false false none, Check.overwrite ()] 7).issues = [0] := by decide
 
 /-- Pipelines without container bases are the pipelines of `parsePipeline`. -/
 theorem parsePipelineK_erase (env : Env P O T V) (vac : P → Bool) (p : PipelineK P O T)
